@@ -267,3 +267,108 @@ func decisionEqualityIsNotIdentity(c *core.Ctx, rule string) {
 	}
 	c.Check(n >= 5, rule, "call sites of the decision-equality functions", 0, fmt.Sprintf("only %d found", n))
 }
+
+// nilChildKeepsTheAccumulator: the trie walkers thread a result list through the recursion (`res = child.walk(res)`).
+// A walker whose nil-receiver case returns something other than the list it was handed (dumpPfxs returns nil) throws the
+// collected routes away when it is called on a missing child: each such call must sit under `child != nil`.
+func nilChildKeepsTheAccumulator(c *core.Ctx, rule string) {
+	n := 0
+	for _, f := range c.P.MethodsOf("routingtable", "node") {
+		if f.Decl.Body == nil || len(f.Decl.Body.List) == 0 {
+			continue
+		}
+		recv := core.RecvObj(f)
+		sig := f.Obj.Type().(*types.Signature)
+		if sig.Results().Len() != 1 || sig.Params().Len() < 1 {
+			continue
+		}
+		if _, isSlice := sig.Results().At(0).Type().Underlying().(*types.Slice); !isSlice {
+			continue
+		}
+		// accumulator parameter: the parameter of the result's type
+		var acc types.Object
+		for i := 0; i < sig.Params().Len(); i++ {
+			if types.Identical(sig.Params().At(i).Type(), sig.Results().At(0).Type()) {
+				acc = sig.Params().At(i)
+			}
+		}
+		if acc == nil {
+			continue
+		}
+		// does the nil case hand the accumulator back?
+		drops := false
+		if is, ok := f.Decl.Body.List[0].(*ast.IfStmt); ok {
+			if x, isNil := core.IsNilCheck(f.Pkg, is.Cond); isNil && core.ObjOf(f.Pkg, x) == recv {
+				for _, s := range is.Body.List {
+					if rs, isRet := s.(*ast.ReturnStmt); isRet && len(rs.Results) == 1 && core.ObjOf(f.Pkg, rs.Results[0]) != acc {
+						drops = true
+					}
+				}
+			}
+		}
+		if !drops {
+			continue
+		}
+		// every call of f, anywhere in the package, on a receiver that is not known non-nil
+		for _, g := range c.P.FuncsIn("routingtable") {
+			if g.Decl.Body == nil {
+				continue
+			}
+			for _, call := range core.Calls(g.Pkg, g.Decl.Body, func(o *types.Func) bool { return o == f.Obj }) {
+				se, ok := call.Fun.(*ast.SelectorExpr)
+				if !ok {
+					continue
+				}
+				if _, isField := core.Unparen(se.X).(*ast.SelectorExpr); !isField {
+					continue // called on a root the caller owns (rt.root), not on a child link
+				}
+				n++
+				c.Analysed(g)
+				c.Check(core.KnownNonNil(g.Pkg, core.FactsAt(g, call), se.X), rule, fmt.Sprintf("%s calls %s on %s only when it is there", g.Name(), f.Obj.Name(), types.ExprString(se.X)), call.Pos(),
+					f.Obj.Name()+" returns nil (not the list it was handed) for a nil node: called on a missing child it throws away every route collected so far, so GetLonger/dumps lose the routes of the sibling subtree")
+			}
+		}
+	}
+	c.Check(n >= 2, rule, "walker calls on child links", 0, fmt.Sprintf("only %d found", n))
+}
+
+// replaceIsOneStep: LocRIB.ReplacePath swaps one stored path for another in ONE step that can fail
+// (Route.ReplacePath: "path not found"); when it fails the route is left alone and nothing is propagated.  Splitting it
+// into a removal and an unconditional addition installs the new path although nothing was replaced: the Loc-RIB then
+// holds a path no source contributed (the policy-reload caller relies on the guard for paths withdrawn meanwhile).
+func replaceIsOneStep(c *core.Ctx, rule string) {
+	f := c.MustFunc(locPkg + ".(*LocRIB).ReplacePath")
+	if f == nil {
+		return
+	}
+	c.Analysed(f)
+	loose := core.Calls(f.Pkg, f.Decl.Body, core.KeyIs("routingtable.(*RoutingTable).AddPath", "routingtable.(*RoutingTable).RemovePath", "routingtable.(*RoutingTable).ReplacePath",
+		"route.(*Route).AddPath", "route.(*Route).RemovePath"))
+	at := f.Decl.Pos()
+	if len(loose) > 0 {
+		at = loose[0].Pos()
+	}
+	c.Check(len(loose) == 0, rule, f.Name()+" changes the route through Route.ReplacePath only", at,
+		"the replacement is split into separate table operations: the addition no longer depends on the old path having been found")
+	reps := core.Calls(f.Pkg, f.Decl.Body, core.KeyIs("route.(*Route).ReplacePath"))
+	if !c.Check(len(reps) == 1, rule, f.Name()+" calls Route.ReplacePath once", f.Decl.Pos(), "expected exactly one Route.ReplacePath call") {
+		return
+	}
+	// its error gates the propagation
+	var errObj types.Object
+	ast.Inspect(f.Decl.Body, func(n ast.Node) bool {
+		if as, ok := n.(*ast.AssignStmt); ok && len(as.Rhs) == 1 && core.Unparen(as.Rhs[0]) == ast.Expr(reps[0]) && len(as.Lhs) == 1 {
+			errObj = core.ObjOf(f.Pkg, as.Lhs[0])
+		}
+		return true
+	})
+	for _, call := range core.Calls(f.Pkg, f.Decl.Body, core.KeyIs(locPkg+".(*LocRIB).propagateChanges")) {
+		ok := false
+		for _, ft := range core.FactsAt(f, call) {
+			if x, isNil := core.IsNilCheck(f.Pkg, ft.Expr); isNil && ft.Truth && errObj != nil && core.ObjOf(f.Pkg, x) == errObj {
+				ok = true
+			}
+		}
+		c.Check(ok, rule, f.Name()+" propagates only when the replacement succeeded", call.Pos(), "the change is propagated to the clients although Route.ReplacePath reported that the old path was not found")
+	}
+}
